@@ -10,7 +10,7 @@ LEVEL = "model_checking"
 LEVEL_TEXT = ("Explicit enumeration of all write histories up to depth 2 (and depth 3 over a reduced alphabet) over an "
               "alphabet of (address, length) events built from every format boundary (lengths 0,1,2 and around each multiple of "
               "65535; addresses 0, bank edges, the 2^24 limit, negative, and every address that puts the first, second or third "
-              "record at offset 0x454F46 'EOF'), with and without the copier header, executed on the real IPSWriter over BytesIO; "
+              "record at offset 0x454F46 'EOF'), with and without the copier header, with pseudo-random contents and with 8 special contents (all zeros / FF / one value, 00-FF mixes, a run at the start, end or middle of other data), executed on the real IPSWriter over BytesIO; "
               "the produced file is read by an independent strict IPS reader and its effect compared with the writes. "
               "The two unit tests write one small and one 65536-byte block.")
 LEVEL_NOTE = ("Trusted: mc/ref/ips.py (strict reader). The writer keeps no state between writes except the file, so depth 2 shows "
@@ -43,7 +43,7 @@ def base():
 def bound(tier):
     a3, l3 = (len(ADDRS), len(LENGTHS)) if tier == "thorough" else (len(ADDRS_T), len(LENGTHS_T))
     return (f"all histories of depth <=2 over {len(ADDRS)}x{len(LENGTHS)} events and of depth 3 over {a3}x{l3} events, "
-            "x copier header on/off")
+            "x copier header on/off; 8 special block contents (uniform runs, 00/FF mixes, runs inside other data) x all depth-1 histories over 15x14 events and depth-2 over 8x4 events")
 
 
 def events(addrs, lengths):
@@ -56,6 +56,10 @@ def cases(tier, seed):
         yield ("d1", header)
         for i in range(len(ev)):
             yield ("d2", header, i)
+    # block CONTENTS a writer may treat specially (uniform runs, 00/FF mixes, runs inside other data)
+    for header in (False, True):
+        for ck in CONTENTS:
+            yield ("content", header, ck)
     ev3 = events(ADDRS, LENGTHS) if tier == "thorough" else events(ADDRS_T, LENGTHS_T)
     for header in (False, True):
         for i in range(len(ev3)):
@@ -87,7 +91,36 @@ def classify(s0, ln):
     return "ok"
 
 
-def run_history(hist, header, viol, identical_repeats=False):
+CONTENTS = ["zeros", "ff", "mix00ff", "u7e", "zeros-then-one", "one-then-zeros", "run-in-middle", "two-runs"]
+LENGTHS_C = [0, 1, 2, 3, 8, 9, 10, 16, 300, M - 1, M, M + 1, M + 9, 2 * M + 1]
+LENGTHS_C2 = [1, 9, M, M + 9]
+
+
+def content(kind, ln, salt):
+    if kind == "prng":
+        return base()[salt * 1021:salt * 1021 + ln]
+    if kind == "zeros":
+        return bytes(ln)
+    if kind == "ff":
+        return b"\xff" * ln
+    if kind == "mix00ff":
+        return (b"\x00\xff\xff" * (ln // 3 + 1))[:ln]
+    if kind == "u7e":
+        return bytes([0x7E + salt]) * ln
+    if kind == "zeros-then-one":
+        return bytes(ln - 1) + b"\x01" if ln else b""
+    if kind == "one-then-zeros":
+        return b"\x01" + bytes(ln - 1) if ln else b""
+    if kind == "run-in-middle":
+        d = bytearray(base()[salt * 1021:salt * 1021 + ln])
+        d[ln // 3:ln // 3 + 40] = bytes(len(d[ln // 3:ln // 3 + 40]))
+        return bytes(d)
+    if kind == "two-runs":
+        return (bytes(ln // 2) + b"\xff" * ln)[:ln]
+    raise ValueError(kind)
+
+
+def run_history(hist, header, viol, identical_repeats=False, kind="prng"):
     """hist: list of (addr, length). Returns (nontrivial, outcome tag).
     identical_repeats: a write whose (address, length) equals an earlier write's carries the SAME bytes as that one."""
     from a816.writers import IPSWriter
@@ -104,7 +137,7 @@ def run_history(hist, header, viol, identical_repeats=False):
         salt = i
         if identical_repeats:
             salt = next(j for j in range(i + 1) if hist[j] == (addr, ln))
-        data = b[salt * 1021:salt * 1021 + ln]
+        data = b[salt * 1021:salt * 1021 + ln] if kind == "prng" else content(kind, ln, salt)
         cls = classify(addr + hdr, ln)
         attempted.append((addr + hdr, data))
         try:
@@ -199,7 +232,12 @@ def run_case(case):
     outcomes = set()
     states = 0
     example = None
-    if kind == "d1":
+    ckind = "prng"
+    if kind == "content":
+        ckind = case[2]
+        ev2 = events(ADDRS_T, LENGTHS_C2)
+        hists = [[e] for e in events(ADDRS, LENGTHS_C)] + [[a, b2] for a in ev2 for b2 in ev2]
+    elif kind == "d1":
         hists = [[e] for e in events(ADDRS, LENGTHS)] + [[]]
     elif kind == "d2":
         ev = events(ADDRS, LENGTHS)
@@ -213,7 +251,7 @@ def run_case(case):
         if len(set(h)) < len(h) and any(ln for _, ln in h):
             runs.append((h, True))  # same history, the repeated write restores exactly the earlier bytes
     for h, ident in runs:
-        t, tag = run_history(h, header, viol, identical_repeats=ident)
+        t, tag = run_history(h, header, viol, identical_repeats=ident, kind=ckind)
         n += 1
         nt += t
         states += 1
